@@ -81,6 +81,7 @@ type Summary struct {
 	Strategies   map[string]int `json:"strategies"`
 	Inconclusive map[string]int `json:"inconclusive"`
 	Foreign      map[string]int `json:"foreign"`
+	ForeignMsg   map[string]string `json:"foreign_msg"`
 	Hashes       []uint64       `json:"hashes"`     // distinct schedule/trace digests
 	NonTrivial   []uint64       `json:"nontrivial"` // distinct (shape^hash) of runs that reached the trigger condition
 	Shapes       []uint64       `json:"shapes"`
@@ -200,7 +201,7 @@ func WorkerMain(t *testing.T, engine, family string, c Case) {
 	dump := os.Getenv("VERIF_DUMP") != ""
 	maxShrink := int(envInt("VERIF_SHRINK_TRIES", 200))
 
-	sum := &Summary{Property: prop, Engine: engine, Family: family, Reach: map[string]int{}, Strategies: map[string]int{}, Inconclusive: map[string]int{}, Foreign: map[string]int{}}
+	sum := &Summary{Property: prop, Engine: engine, Family: family, Reach: map[string]int{}, Strategies: map[string]int{}, Inconclusive: map[string]int{}, Foreign: map[string]int{}, ForeignMsg: map[string]string{}}
 	hashes := map[uint64]struct{}{}
 	nontriv := map[uint64]struct{}{}
 	shapes := map[uint64]struct{}{}
@@ -231,6 +232,9 @@ func WorkerMain(t *testing.T, engine, family string, c Case) {
 		}
 		for _, v := range out.Foreign {
 			sum.Foreign[v.Prop+"|"+v.Sig]++
+			if _, ok := sum.ForeignMsg[v.Prop+"|"+v.Sig]; !ok {
+				sum.ForeignMsg[v.Prop+"|"+v.Sig] = fmt.Sprintf("run %d: %s", i, v.Msg)
+			}
 		}
 		if out.Inconclusive != "" {
 			sum.Inconclusive[out.Inconclusive]++
